@@ -709,6 +709,29 @@ static Plan gen_c12_base(uint64_t seed, uint64_t run, const std::string& cfg) {
       pl.ops.push_back(o);
     }
     if (nexec == 0) { Op o = mkop("f_exec"); o.o = 0; o.d = {D()}; o.i = {(int64_t)g.below(2), 0, 0}; pl.ops.push_back(o); }
+    // keep the number of arc vertices executable (domain restriction, DESIGN 3.1.1): with every path of the history added and
+    // the finest arc tolerance it ever sets, no Execute may produce more than ~30000 arc vertices (they all overlap when the
+    // offset is much larger than the shapes, and the sweep of the finishing union is quadratic in that case)
+    {
+      double nv = 0, arc_min = 1e300; bool arc_default = false;
+      for (const Op& o : pl.ops) {
+        if (o.kind == "f_addpaths" || o.kind == "f_addpath") for (const PPath& q : o.P[0]) nv += (double)q.size();
+        if (o.kind == "new_off") { double a = o.d.size() > 1 ? o.d[1] : 0; if (a > 0) arc_min = std::min(arc_min, a); else arc_default = true; }
+        if (o.kind == "f_arc") { double a = o.d.empty() ? 0 : o.d[0]; if (a > 0) arc_min = std::min(arc_min, a); else arc_default = true; }
+      }
+      nv = std::max(nv, 1.0);
+      auto steps360 = [&](double ad) {
+        double st = 0;
+        if (arc_default && ad > 0) st = std::max(st, std::min(3.14159265358979 / std::acos(1 - 0.002), ad * 3.14159265358979));
+        if (arc_min < 1e299 && ad > 0) { double tol = std::min(ad, arc_min); st = std::max(st, std::min(3.14159265358979 / std::acos(1 - tol / ad), ad * 3.14159265358979)); }
+        return st;
+      };
+      for (Op& o : pl.ops) if ((o.kind == "f_exec" || o.kind == "f_execcb" || o.kind == "f_setdcb") && !o.d.empty()) {
+        double ad = std::fabs(o.d[0]); int guard = 0;
+        while (ad > 1 && nv * steps360(ad) > 30000.0 && guard++ < 60) ad *= 0.7;
+        if (ad != std::fabs(o.d[0])) o.d[0] = o.d[0] < 0 ? -ad : ad;
+      }
+    }
     return pl;
   }
   // mode 7: rect clip objects: repeated executes on one object, many paths per call
